@@ -601,6 +601,7 @@ func (fr *Frame) run(entry *State, reach string) {
 		if b == fn.Blocks[0] {
 			st = entry.clone()
 			r = reach
+			fr.applyEntryGhosts(st)
 		} else {
 			for _, p := range b.Preds {
 				if isBackEdge(p, b) {
